@@ -458,8 +458,8 @@ class Deep:
     with a chain and possibly a barrier inside); then further chains that continue the earlier ones, met by the
     next barrier / bvalue / compound; value-dependent continuations with chains inside."""
 
-    def __init__(self, rng, chain=(55, 90), max_tasks=420):
-        self.rng, self.chain, self.max_tasks = rng, chain, max_tasks
+    def __init__(self, rng, chain=(55, 90), max_tasks=420, nfirst=(1, 2, 2, 2, 3, 3)):
+        self.rng, self.chain, self.max_tasks, self.nfirst = rng, chain, max_tasks, nfirst
         self.n = 0
         self.ntasks = 0
 
@@ -526,13 +526,17 @@ class Deep:
             else:
                 self.d(out, env, 'f', [{'c': rng.randrange(M)}, {'c': rng.randrange(M)}], 1)
 
-    def segment(self, out, env, nchains, starts):
+    def segment(self, out, env, nchains, starts, prefer=None):
+        """prefer: a task the first chain continues with probability 3/4 (what the previous round produced)"""
         rng = self.rng
         ends = []
-        for _ in range(nchains):
+        for j in range(nchains):
             if self.ntasks + self.chain[1] + 8 > self.max_tasks:
                 break
-            start = rng.choice(starts) if (starts and rng.random() < 0.6) else None
+            if j == 0 and prefer is not None and rng.random() < 0.75:
+                start = prefer
+            else:
+                start = rng.choice(starts) if (starts and rng.random() < 0.6) else None
             ends.append(self.chain_from(out, env, start, [e for e in ends if rng.random() < 0.5]))
             if rng.random() < 0.3:
                 self.shallow(out, env, ends)
@@ -572,10 +576,15 @@ class Deep:
         rng = self.rng
         root, env = [], []
         out = root
-        ends = self.segment(out, env, rng.choice([1, 2, 2, 2, 3, 3]), [])
+        nf = rng.choice(self.nfirst)
+        # nf = 0: no chain at the head - whatever comes first (a compound, say) is the head of the chains that follow
+        ends = self.segment(out, env, nf, []) if nf else [self.d(out, env, 'f', [{'c': rng.randrange(M)}, {'c': rng.randrange(M)}], 1)]
         nrounds = rounds or rng.choice([1, 2, 2, 3])
         complete = set()
-        for r in range(nrounds):
+        r = -1
+        while r + 1 < nrounds:
+            r += 1
+            prefer = None
             act = first if (r == 0 and first) else rng.choice(['barrier', 'barrier', 'barrier', 'bvalue', 'bvalue', 'compound', 'compound'])
             if act == 'barrier':
                 out.append({'op': 'barrier'})
@@ -589,9 +598,12 @@ class Deep:
                 out.append({'op': 'bvalue', 'var': var, 'arg': {'t': tv}, 'plain_value': False, 'branches': {'*': rest}})
                 out = rest
             else:
-                ends = ends + [self.compound(out, env, rng.choice(ends), ends)]
+                prefer = self.compound(out, env, rng.choice(ends), ends)
+                ends = ends + [prefer]
+                if r == nrounds - 1 and nrounds < 4 and self.room() and rng.random() < 0.7:
+                    nrounds += 1        # something after the compound: a chain that hangs on it, met from its far end
             if r < nrounds - 1 and self.room():
-                ends = self.segment(out, env, rng.choice([1, 1, 2]), ends)
+                ends = self.segment(out, env, rng.choice([1, 1, 2]), ends, prefer)
         if rng.random() < 0.3:
             # v = bvalue(end); the value decides what follows (another chain and a barrier in two of the branches)
             tv = rng.choice(ends)
